@@ -79,12 +79,9 @@ impl Parser for GoModParser {
                     let version_match = caps.get(2).unwrap();
                     let version = version_match.as_str();
 
-                    // Calculate byte offset for version
-                    let line_start = content
-                        .lines()
-                        .take(line_num)
-                        .map(|l| l.len() + 1)
-                        .sum::<usize>();
+                    // Byte offset of this line in the document (`line` borrows from
+                    // `content`, so this is exact for CRLF line endings too)
+                    let line_start = line.as_ptr() as usize - content.as_ptr() as usize;
                     let version_start = line_start + version_match.start();
                     let version_end = line_start + version_match.end();
 
@@ -108,12 +105,9 @@ impl Parser for GoModParser {
                 let version_match = caps.get(2).unwrap();
                 let version = version_match.as_str();
 
-                // Calculate byte offset for version
-                let line_start = content
-                    .lines()
-                    .take(line_num)
-                    .map(|l| l.len() + 1)
-                    .sum::<usize>();
+                // Byte offset of this line in the document (`line` borrows from
+                // `content`, so this is exact for CRLF line endings too)
+                let line_start = line.as_ptr() as usize - content.as_ptr() as usize;
                 // Find actual position in the original line (not trimmed)
                 let require_pos = line.find("require").unwrap_or(0);
                 let version_pos_in_line = line[require_pos..]
